@@ -284,6 +284,12 @@ fn session_id_oracle(first: u64, bytes: &[u64], out: &Args) -> Option<(&'static 
 }
 
 pub fn oracle(f: u32, a: &Args, out: &Args) -> Option<(&'static str, String)> {
+    // a stream that ends after the reader has consumed bytes of a frame did not end cleanly: "end of stream
+    // before anything was read" (ImmediateFin) is only an answer when nothing was consumed (C12: a truncated
+    // frame is H3_FRAME_ERROR; C04: a clean finish of the session stream means something else)
+    if f == 203 && out[0].len() == 3 && out[0][0] == 3 && out[0][2] == 0 && out[0][1] > 0 {
+        return Some(("C12+C15+C04+C05", format!("the stream ended after {} bytes of a frame had been consumed and the reader reported a clean end of stream", out[0][1])));
+    }
     if f == 201 || (f == 203 && a[2][0] == 0) {
         if let Some(x) = session_id_oracle(0x41, &a[0], out) { return Some(x); }
     }
